@@ -324,14 +324,16 @@ class Integer(Object, int):
     __match_args__ = ("_as_int",)
 
     def __new__(cls, number, *args, **kwargs):
+        number = strip_digit_separators(number)
         return super().__new__(
             cls,
             int(
-                strip_digit_separators(number),
+                number,
                 **(
                     {"base": 0}
-                    if isinstance(number, str) and not number.isdigit()
-                    # `not number.isdigit()` is necessary because `base = 0`
+                    if isinstance(number, str)
+                    and not number.lstrip("+-").isdigit()
+                    # `not ....isdigit()` is necessary because `base = 0`
                     # fails on decimal integers starting with a leading 0.
                     else {}
                 ),
